@@ -5,6 +5,7 @@ import (
 	"encoding/hex"
 	"fmt"
 	"strconv"
+	"strings"
 
 	"github.com/Breeze0806/gobinlog/replication"
 
@@ -243,7 +244,15 @@ type c17Scn struct {
 }
 
 var c17Kinds = []string{"empty", "one-byte", "18-bytes", "truncated-by-1", "extended-by-1", "random",
-	"first-4", "first-5", "first-9", "first-12", "first-13", "first-14", "first-15", "first-16", "first-17", "first-19", "first-20"}
+	"first-4", "first-5", "first-9", "first-12", "first-13", "first-14", "first-15", "first-16", "first-17", "first-19", "first-20",
+	"gv-header-only", "gv-random-body", "gv-ff-body"}
+
+// c17GateValid: kinds whose packet PASSES the validity test (full header,
+// length field right) although its body is garbage. What is demanded of them:
+// no panic; and if the stream ends with an error, nothing partial was delivered
+// and the next attempt resumes at the last accepted commit boundary. (Garbage
+// that happens to decode is an event like any other.)
+func c17GateValid(kind string) bool { return strings.HasPrefix(kind, "gv-") }
 
 func c17Payload(kind string, plan []sim.PlanPkt, at int, r *core.Rng) []byte {
 	var evb []byte
@@ -275,6 +284,26 @@ func c17Payload(kind string, plan []sim.PlanPkt, at int, r *core.Rng) []byte {
 		return b
 	case "extended-by-1":
 		return append(append([]byte(nil), evb...), byte(r.Intn(256)))
+	}
+	if c17GateValid(kind) {
+		types := []byte{2, 4, 15, 19, 23, 24, 25, 30, 31, 32, 33, 35, 16, 5, 13}
+		n := 19
+		switch kind {
+		case "gv-random-body":
+			n = 20 + r.Intn(80)
+		case "gv-ff-body":
+			n = 64
+		}
+		b := r.Bytes(n)
+		if kind == "gv-ff-body" {
+			for i := 19; i < n; i++ {
+				b[i] = 0xff
+			}
+		}
+		b[4] = types[r.Intn(len(types))]
+		binary.LittleEndian.PutUint32(b[9:], uint32(n))
+		binary.LittleEndian.PutUint32(b[13:], hostileNext)
+		return b
 	}
 	for {
 		b := r.Bytes(19 + r.Intn(80))
@@ -316,8 +345,8 @@ func c17StreamRun(c *core.Ctx, scn c17Scn, h *hist.History, l *hist.Layout, tabl
 	plan := sim.Plan(l, start)
 	r := c.Rng(core.StrID("c17stream"), uint64(scn.Hist), uint64(scn.At), core.StrID(scn.Kind))
 	payload := c17Payload(scn.Kind, plan, scn.At, r)
-	if refValid(payload) {
-		c.Inconclusive("generated payload passes the gate; skipped")
+	if refValid(payload) != c17GateValid(scn.Kind) {
+		c.Inconclusive("generated payload is on the wrong side of the gate; skipped")
 		return
 	}
 	s, err := run.NewSession(l, tables, 1717, start, true)
@@ -356,7 +385,11 @@ func c17StreamRun(c *core.Ctx, scn c17Scn, h *hist.History, l *hist.Layout, tabl
 	}
 	c.Cell("stream:inject:" + scn.Kind)
 	if res.Panic != "" {
-		c.Violation("c17:stream-panic:"+scn.Kind, fmt.Sprintf("%+v: Stream panicked on a gate-rejected packet: %s", scn, res.Panic), wit(nil))
+		c.Violation("c17:stream-panic:"+scn.Kind, fmt.Sprintf("%+v: Stream panicked on a garbage packet: %s", scn, res.Panic), wit(nil))
+		return
+	}
+	if res.Err == nil && c17GateValid(scn.Kind) {
+		c.Cell("stream:gate-valid-garbage-decoded-as-an-event")
 		return
 	}
 	if res.Err == nil {
